@@ -239,6 +239,8 @@ def strict_only_failure(cx: Cx, ob: Ob) -> None:
                 val = NONE if o2 is None else o2[1] if o2[0] == "return" else None
                 if val is None or _kind(fn, val) != "VALUE":
                     continue
+                if rest2.get(("cmp", "is", val, NONE)) is True or rest2.get(("cmp", "is not", val, NONE)) is False:
+                    continue  # the value returned is known to be None on that path
                 # the default path must not have taken a decision the raising path contradicts, and must be a path
                 # that exists beside it (shares its last non-flag test or has none after it)
                 if compatible(rest, rest2) and compatible(rest2, rest) and set(rest2) <= set(rest):
